@@ -98,6 +98,8 @@ AboutCases == {[kind |-> "about", obj |-> o, t |-> t] : o \in {"pointcloud", "tr
 ScaleCases == {[kind |-> "scalefac", factors |-> f, ndims |-> n] : f \in {<<R(2),R(2)>>, <<R(2),R(3)>>, <<Q(1,2),Q(1,2),Q(1,2)>>, <<R(1),R(2),R(1)>>, <<R(2),Z0>>, <<Z0,Z0,Z0>>}, n \in {0}}
                \cup {[kind |-> "scalefac", factors |-> <<f>>, ndims |-> n] : f \in {R(2), Q(1,4), Z0}, n \in {2, 3}}
 TcCases == {[kind |-> "tcoords", shape |-> <<h, w>>] : h \in 2..(IF Wide THEN 12 ELSE 6), w \in 2..(IF Wide THEN 12 ELSE 6)}
+           \* large, nearly square images: 1/(h-1) and 1/(w-1) differ by less than any "close enough" test would notice
+           \cup {[kind |-> "tcoords", shape |-> sh] : sh \in {<<12001, 12002>>, <<10000, 10001>>, <<20001, 20003>>, <<4096, 4097>>}}
 Inv3Cases == {[kind |-> "inv3", cls |-> c, M |-> m] : <<c, m>> \in {<<c, m>> \in (DOMAIN Pool3) \X (UNION {Pool3[x] : x \in DOMAIN Pool3}) : m \in Pool3[c]}}
              \cup {[kind |-> "inv3", cls |-> "Rotation", M |-> QuatM(q)] : q \in Quats}
 \* decomposition of affine-family members (C03): rotation, scale, rotation, translation (numerically an SVD: uninterpreted)
